@@ -3,6 +3,7 @@ package main
 import (
 	"fmt"
 	"go/token"
+	"go/types"
 	"strings"
 
 	"golang.org/x/tools/go/ssa"
@@ -366,4 +367,119 @@ func ruleMergeNewer(c *Ctx) {
 	}
 	c.Sites += n
 	c.minInstances("index lookups compared with the scan position in Merge", n, 1)
+}
+
+// ---------------------------------------------------------------------------
+// R-MERGE-PRESERVE (C15, C03, C01): the merge rewrite re-emits every stored field of the record it
+// keeps: each argument of the gate call in the rewrite step is a load of the corresponding field of
+// the entry being rewritten (bucket, key, value, TTL, flag, timestamp, data structure). A rewrite that
+// substitutes anything (e.g. the current time for the stored timestamp) changes expiry or meaning.
+
+func ruleMergePreserve(c *Ctx) {
+	gate, _, _ := findPutGate(c)
+	merge := c.P.MustFunc("(*DB).Merge")
+	// gate parameters by name -> expected record leaf
+	want := map[string]string{"bucket": "BUCKET", "key": "KEY", "value": "VALUE", "ttl": "TTL", "flag": "FLAG", "timestamp": "TIMESTAMP", "ds": "DS"}
+	rc := &recipeCtx{p: c.P}
+	n := 0
+	for _, f := range c.P.ModCone(merge) {
+		if f.Pkg != c.P.Main || isTxMethod(f) {
+			continue
+		}
+		calls(f, func(ci ssa.CallInstruction) {
+			if ci.Common().StaticCallee() != gate {
+				return
+			}
+			n++
+			c.touch(f)
+			args := ci.Common().Args
+			var entryRoot string
+			for i, p := range gate.Params {
+				if i == 0 || i >= len(args) {
+					continue
+				}
+				leaf, ok := want[strings.ToLower(p.Name())]
+				if !ok {
+					continue
+				}
+				got := rc.recipe(args[i], 0)
+				root, _ := splitPath(args[i])
+				rname := ""
+				if root != nil {
+					rname = root.Name()
+				}
+				same := got == leaf
+				if same {
+					if entryRoot == "" {
+						entryRoot = rname
+					} else if entryRoot != rname {
+						same = false
+					}
+				}
+				c.check(same, fnName(f), fmt.Sprintf("rewrite call #%d passes the stored %s unchanged", n, strings.ToLower(leaf)), c.P.ipos(ci), "",
+					fmt.Sprintf("the merge rewrite passes %s where the stored %s of the record being rewritten is expected: the rewritten record differs from the original (a fresh timestamp restarts the TTL, another flag or structure changes its meaning)", got, strings.ToLower(leaf)))
+			}
+		})
+	}
+	c.Sites += n
+	c.minInstances("gate calls in the merge rewrite step", n, 1)
+}
+
+// ---------------------------------------------------------------------------
+// R-MERGE-KEEPORDER (C15, C07): the rewrite set of a segment is built by appending the scanned
+// entries in scan (= log) order. A keeper that replaces or moves an element already collected changes
+// the order in which the rewritten records are replayed, which matters for every operation whose
+// result depends on its predecessors (score changes, list edits).
+
+func ruleMergeKeepOrder(c *Ctx) {
+	merge := c.P.MustFunc("(*DB).Merge")
+	commitCone := map[*ssa.Function]bool{}
+	for _, f := range c.P.ModCone(c.P.MustFunc("(*Tx).Commit"), c.P.MustFunc("(*DB).Begin")) {
+		commitCone[f] = true
+	}
+	n := 0
+	for _, f := range c.P.ModCone(merge) {
+		if f.Pkg != c.P.Main || commitCone[f] {
+			continue
+		}
+		k := 0
+		instrs(f, func(in ssa.Instruction) {
+			st, ok := in.(*ssa.Store)
+			if !ok {
+				return
+			}
+			ia, ok := st.Addr.(*ssa.IndexAddr)
+			if !ok || !isEntrySliceType(ia.X.Type()) {
+				return
+			}
+			// the variadic pack of an append is a fresh array, not the rewrite set
+			if _, isArr := ia.X.Type().Underlying().(*types.Slice); !isArr {
+				return
+			}
+			n++
+			k++
+			c.touch(f)
+			c.bad(fnName(f), fmt.Sprintf("element store #%d into an entry slice", k), c.P.ipos(st),
+				"an element of the rewrite set is overwritten in place: the rewritten records no longer follow the order of the log, so operations whose effect depends on earlier ones (re-scoring a member, list edits) are replayed in the wrong order after the merge")
+		})
+	}
+	// appends examined (the only accepted way to grow the set)
+	na := 0
+	for _, f := range c.P.ModCone(merge) {
+		if f.Pkg != c.P.Main || commitCone[f] {
+			continue
+		}
+		calls(f, func(ci ssa.CallInstruction) {
+			if bi, ok := ci.Common().Value.(*ssa.Builtin); ok && bi.Name() == "append" {
+				if v, ok := ci.(ssa.Value); ok && isEntrySliceType(v.Type()) {
+					na++
+				}
+			}
+		})
+	}
+	c.Sites += n + na
+	if n == 0 {
+		c.ok(fnName(merge), "the rewrite set is only appended to", "", fmt.Sprintf("%d appends, no element store", na))
+	}
+	c.minInstances("appends to the rewrite set in the Merge cone", na, 2)
 }
